@@ -37,6 +37,7 @@ class FunctionReport:
         self.solver_time = 0.0
         self.wall = 0.0
         self.loops_used = set()
+        self.fallback_loops = set()   # declared loops attached to a loop whose header no longer matches literally
         self.excluded = []        # obligations excluded by known-finding regimes
         self.cover_ok = None
         self.live_exits = 0       # exits whose path condition (with quantified facts) has a model
@@ -755,6 +756,8 @@ class Engine:
             if len(cands) == 1:
                 key = cands[0]
                 sp = cur.loops[key]
+                # remembered: an invariant written for another loop header may simply no longer fit the code
+                self.current_report.fallback_loops.add(key)
         if sp is not None:
             self.current_report.loops_used.add(key)
         return sp
